@@ -8,12 +8,13 @@ from harness import htaio
 from harness.props import common as C
 from harness.props import cpcommon as CP
 
-N_CASES = {"quick": 120, "thorough": 2000}
+N_CASES = {"quick": 260, "thorough": 2000}
 SHRINK = True
 ASSUMPTIONS = [
     "causally consistent well-formed trace from the simulator: device work starts no earlier than its launch call starts, blocking synchronisation calls return no earlier than the work they wait for, streams are FIFO",
     "the loaded frame (links, iteration) and the queue-length series (C14) are inputs of the model",
     "node ids are not compared: nodes are identified by (event, start/end)",
+    "the analysed rank has, after loading, at least one launch call linked to a device activity; without one the analysis has no queue-length input and stops with a TypeError (counted as outside the quantifier)",
 ]
 
 
@@ -43,6 +44,8 @@ def in_domain(case, obs) -> bool:
     c = obs["canon"]
     if c.get("nodes"):
         return True
+    if isinstance(c["ok"], str) and c["ok"].startswith("degenerate"):
+        return False
     return not (isinstance(c["ok"], str) and "AssertionError" in c["ok"] and "critical_path" in c["ok"])
 
 
